@@ -259,6 +259,8 @@ gather_clauses_(Stream, File, Clauses) :-
             (   var(Clause) ->
                 format("~s: variable clause is ignored.~n", [File]),
                 gather_clauses_(Stream, File, Clauses)
+            ;   Clause == end_of_file -> % only layout was left in the file
+                Clauses = []
             ;   Clause = (?- _Query) ->
                 devour_answer_descriptions(Stream, File, Clauses)
             ;   Clauses = [Clause|Rest],
@@ -280,6 +282,8 @@ devour_answer_descriptions(Stream, File, Clauses) :-
         (   Continue == true ->
             (   var(Clause) ->
                 format("~s: variable clause is ignored.~n", [File])
+            ;   Clause == end_of_file -> % only layout was left in the file
+                Clauses = []
             ;   Clause = (?- _Query) ->
                 devour_answer_descriptions(Stream, File, Clauses)
             ;   loader:answer_description(Clause) ->
